@@ -89,7 +89,14 @@ class Lockstep:
     def __init__(self, case: dict, *, stats: Counter | None = None) -> None:
         self.case = case
         self.stats = stats if stats is not None else Counter()
-        self.gateway, self.transport = new_gateway(None, metric=case.get("metric", True))
+        from . import harness as _harness
+
+        _harness.CONFIG_EXTRA.clear()
+        _harness.CONFIG_EXTRA.update(case.get("config_extra") or {})
+        try:
+            self.gateway, self.transport = new_gateway(None, metric=case.get("metric", True))
+        finally:
+            _harness.CONFIG_EXTRA.clear()
         self.model = Model(metric=case.get("metric", True))
         if case.get("version") is not None:
             self.gateway.protocol_version = case["version"]
@@ -372,6 +379,14 @@ class Lockstep:
             if extra:
                 self.bad("C06", "unspecified-write", f"after {line!r:.80} (a reply write failed): wrote {extra}, specified "
                                                      f"reactions {[item for _t, item in exp.writes]}")
+        elif kind == "dropped":
+            # consumed without a yield and without an error: C04's "every successfully handled line is yielded exactly once"
+            self.stats["outcome:dropped"] += 1
+            if exp.outcome == "yield":
+                self.bad("C04", "line-dropped", f"{line!r:.80} was consumed without being yielded and without an error")
+            else:
+                self.bad("C04", "missing-ref-not-rejected", f"{line!r:.80} was silently dropped although it must fail with {exp.error}")
+            self.compare_writes(line, exp, writes, failed, t0, t1, model_nodes_before, handed_before, before, after)
         else:
             self.compare_outcome(line, exp, kind, value)
             self.compare_writes(line, exp, writes, failed, t0, t1, model_nodes_before, handed_before, before, after)
